@@ -258,3 +258,34 @@ Section Plans.
     let t := if Nat.eqb bound 1 then top1 cmp child else topn (list_heap cmp) bound child in
     offset_iter (Z.of_nat offset) t.
 End Plans.
+
+(* ------------------------------------------------------------------ index order (memory/table_data.go, memory/table.go,
+   sql/analyzer/replace_sort.go) *)
+(* sortSecondaryIndexes: the index storage is the table's rows stably sorted (sort.SliceStable) by the index
+   columns, per column: NULL before any value, then typ.Compare, ascending.  That comparator is CompareRows for
+   ascending NullsFirst conditions on those columns. *)
+Definition idx_col : Type := (nat * kty)%type.
+Definition mk_key (desc : bool) (c : idx_col) : skey := SKey (fst c) (snd c) desc false.
+Definition index_storage (idx : list idx_col) (rows : list row) : list row :=
+  ssort (compare_rows (map (mk_key false) idx)) rows.
+(* indexScanRowIter: forward from 0, or backwards from the end when lookup.IsReverse *)
+Definition index_scan (reverse : bool) (storage : list row) : list row := if reverse then rev storage else storage.
+
+Definition kty_eqb (a b : kty) : bool := match a, b with KInt, KInt | KBin, KBin | KCi, KCi => true | _, _ => false end.
+Definition key_matches (k : skey) (c : idx_col) : bool :=
+  Nat.eqb (k_col k) (fst c) && kty_eqb (k_ty k) (snd c) && negb (k_nulls_last k).
+(* sortExprsMatchIdxColExprs: the sort expressions are, position by position, a prefix of the index columns *)
+Fixpoint prefix_match (ks : list skey) (idx : list idx_col) : bool :=
+  match ks, idx with
+  | [], _ => true
+  | k :: ks', c :: idx' => key_matches k c && prefix_match ks' idx'
+  | _ :: _, [] => false
+  end.
+(* isValidSortOrder: all conditions have the direction of the first *)
+Definition same_dir (ks : list skey) : bool :=
+  match ks with [] => true | k :: _ => forallb (fun k' => Bool.eqb (k_desc k') (k_desc k)) ks end.
+Definition idx_guard (ks : list skey) (idx : list idx_col) : bool :=
+  match ks with [] => false | _ => same_dir ks && prefix_match ks idx end.
+(* replaceIdxSort: Sort(Table) => static index access, reversed when the first condition is DESC *)
+Definition plan_index (ks : list skey) (idx : list idx_col) (rows : list row) : list row :=
+  index_scan (match ks with k :: _ => k_desc k | [] => false end) (index_storage idx rows).
